@@ -14,7 +14,27 @@
  * Printing
  * ======================================================================== */
 
-void val_print(NanoValue v, FILE *out) {
+/* Containers can be cyclic (ARR_PUSH of an array into itself) or very deep: keep the
+ * chain of containers being printed, print "<cycle>" on re-entry and "..." past the
+ * depth limit instead of recursing until the C stack overflows. */
+#define VAL_PRINT_MAX_DEPTH 64
+
+static void val_print_rec(NanoValue v, FILE *out, const void **chain, int depth) {
+    const void *self = NULL;
+    switch (v.tag) {
+        case TAG_ARRAY:  self = v.as.array; break;
+        case TAG_STRUCT: self = v.as.sval;  break;
+        case TAG_UNION:  self = v.as.uval;  break;
+        case TAG_TUPLE:  self = v.as.tuple; break;
+        default: break;
+    }
+    if (self) {
+        for (int i = 0; i < depth; i++) {
+            if (chain[i] == self) { fprintf(out, "<cycle>"); return; }
+        }
+        if (depth >= VAL_PRINT_MAX_DEPTH) { fprintf(out, "..."); return; }
+        chain[depth++] = self;
+    }
     switch (v.tag) {
         case TAG_VOID:
             fprintf(out, "void");
@@ -28,7 +48,7 @@ void val_print(NanoValue v, FILE *out) {
         case TAG_FLOAT: {
             /* Print without trailing zeros, but always with at least one decimal */
             double d = v.as.f64;
-            if (d == (long long)d && d >= -1e15 && d <= 1e15) {
+            if (d >= -1e15 && d <= 1e15 && d == (double)(long long)d) {
                 fprintf(out, "%.1f", d);
             } else {
                 fprintf(out, "%g", d);
@@ -53,7 +73,7 @@ void val_print(NanoValue v, FILE *out) {
                 fprintf(out, "[");
                 for (uint32_t i = 0; i < v.as.array->length; i++) {
                     if (i > 0) fprintf(out, ", ");
-                    val_print(v.as.array->elements[i], out);
+                    val_print_rec(v.as.array->elements[i], out, chain, depth);
                 }
                 fprintf(out, "]");
             } else {
@@ -68,7 +88,7 @@ void val_print(NanoValue v, FILE *out) {
                     if (v.as.sval->field_names && v.as.sval->field_names[i]) {
                         fprintf(out, "%s: ", vmstring_cstr(v.as.sval->field_names[i]));
                     }
-                    val_print(v.as.sval->fields[i], out);
+                    val_print_rec(v.as.sval->fields[i], out, chain, depth);
                 }
                 fprintf(out, "}");
             } else {
@@ -80,7 +100,7 @@ void val_print(NanoValue v, FILE *out) {
                 fprintf(out, "variant(%u", v.as.uval->variant);
                 for (uint32_t i = 0; i < v.as.uval->field_count; i++) {
                     fprintf(out, ", ");
-                    val_print(v.as.uval->fields[i], out);
+                    val_print_rec(v.as.uval->fields[i], out, chain, depth);
                 }
                 fprintf(out, ")");
             } else {
@@ -92,7 +112,7 @@ void val_print(NanoValue v, FILE *out) {
                 fprintf(out, "(");
                 for (uint32_t i = 0; i < v.as.tuple->count; i++) {
                     if (i > 0) fprintf(out, ", ");
-                    val_print(v.as.tuple->elements[i], out);
+                    val_print_rec(v.as.tuple->elements[i], out, chain, depth);
                 }
                 fprintf(out, ")");
             } else {
@@ -112,6 +132,11 @@ void val_print(NanoValue v, FILE *out) {
             fprintf(out, "unknown(%u)", v.tag);
             break;
     }
+}
+
+void val_print(NanoValue v, FILE *out) {
+    const void *chain[VAL_PRINT_MAX_DEPTH];
+    val_print_rec(v, out, chain, 0);
 }
 
 void val_println(NanoValue v) {
